@@ -40,6 +40,7 @@ func (s *Stream) Close(context.Context) error {
 	// acquire mutex
 	s.mutex.Lock()
 	defer s.mutex.Unlock()
+	verifStreamPoint("stream.close.locked", s)
 
 	// check state
 	if s.closed {
@@ -240,10 +241,12 @@ func (s *Stream) next(ctx context.Context, block bool) bool {
 		// run concurrently with the wait
 		signal := s.signal
 		s.mutex.Unlock()
+		verifStreamPoint("stream.next.wait", s)
 
 		// await next event
 		select {
 		case _, ok := <-signal:
+			verifStreamPoint("stream.next.woke", s)
 			if !ok {
 				// close stream
 				s.mutex.Lock()
@@ -254,6 +257,7 @@ func (s *Stream) next(ctx context.Context, block bool) bool {
 			}
 		case <-ctx.Done():
 			// set error
+			verifStreamPoint("stream.next.woke", s)
 			s.mutex.Lock()
 			if s.error == nil {
 				s.error = ctx.Err()
